@@ -46,4 +46,5 @@ D22 5648d1e
 D26 6e387c3
 D27 7ac08f8
 R1 0b48008
+D29 f72142c
 TAB
